@@ -300,6 +300,9 @@ class TlSchemas:
                         for _ in range(length):
                             if sch:
                                 deser, j = self.deserialize(data[i:], False, sch.args)
+                            elif subtype in self.base_types:  # (vector int), (vector int256), (vector bytes) ...
+                                deser, j = self.deserialize(data[i:], False, {'_': subtype})
+                                deser = deser['_']
                             else:
                                 deser, j = self.deserialize(data[i:], True)
 
